@@ -645,6 +645,11 @@ theorem string_ops (F : FloatOps) (cap : Nat) (s t : List Char) :
     evalBin F cap .eq (.str s) (.str t) = .ok (.bool (decide (s = t))) := by
   simp [evalBin_eq, binImpl, numOnly, isNumK, kindOf, run, concatStrs, pyEq]
 
+theorem replicateStr_nil (k : Nat) : replicateStr [] k = [] := by
+  induction k with
+  | zero => rfl
+  | succ k ih => simp [replicateStr, ih]
+
 /-- repetition: `int * str` is `str * int`; non-positive counts give the empty string, counts
     outside the index range `OverflowError`; otherwise (allocator permitting) `n` copies -/
 theorem repetition (F : FloatOps) (cap : Nat) (s : List Char) (n : Int) :
@@ -684,7 +689,11 @@ theorem repetition (F : FloatOps) (cap : Nat) (s : List Char) (n : Int) :
       omega
     have a5 : ¬ (s.length * (k : Int).toNat > cap) := by simp; omega
     simp [a1, a2, a3, a4]
-    exact hc
+    have a6 : ¬ (cap < s.length * k) := by omega
+    simp only [a6, if_false]
+    by_cases hs : s = []
+    · subst hs; simp [replicateStr_nil]
+    · simp [hs]
 
 theorem truth_ops (F : FloatOps) (cap : Nat) (a b : SVal) :
     evalBin F cap .and a b = .ok (if truthy a then b else a) ∧
